@@ -209,6 +209,9 @@ func (w *appWorld) genTx(rt *rapid.T, n *chain.Node, v appView, wt appWeights) a
 		k := pickKey(rt, "stakeKey", pool)
 		b := n.Balance(chain.Addr(k)).Int64()
 		amts := positive(min-1, min, min, min+1, b-fee-1, b-fee, b-fee, b-fee+1, b, 2*min+int64(uniformN(rt, "extra", 1000)))
+		if b > 400*min {
+			amts = append(amts, 300*min) // large enough to reach the 2^64-1 cap when BaseRelaysPerPOKT is huge
+		}
 		amt := amts[uniformN(rt, "amt", len(amts))]
 		msg := &appsTypes.MsgStake{PubKey: k.PublicKey(), Chains: drawChains(rt, v.params.MaxChains), Value: sdk.NewInt(amt)}
 		signer := k
@@ -258,7 +261,7 @@ func (w *appWorld) genTx(rt *rapid.T, n *chain.Node, v appView, wt appWeights) a
 		var from crypto.PrivateKey
 		lab := []string{}
 		honest := uniformN(rt, "honestTransfer", 10) < wt.honestTransfer
-		fromW, toW, shapeW, signerW := []int{7, 1, 1}, []int{3, 3, 4, 1}, []int{10, 1, 1}, []int{7, 1, 1, 1}
+		fromW, toW, shapeW, signerW := []int{6, 2, 1}, []int{3, 3, 4, 1}, []int{10, 1, 1}, []int{7, 1, 1, 1}
 		if honest {
 			fromW, toW, shapeW, signerW = []int{1, 0, 0}, []int{1, 1, 0, 0}, []int{1, 0, 0}, []int{1, 0, 0, 0}
 		}
